@@ -7,7 +7,8 @@ from vc.speclemmas import STREAM, PUBL, MAPL
 from contracts.pattern_family import c12_contracts
 from contracts.interp_sim import SIFILE
 from contracts.publish import (PFILE, IFILE, OFILE, phase_unit, full_unit, pattern_unit, forward_unit, symbol_table_unit, symbol_refusal_unit, table_kept_unit, publish_bounded)
-from .c04 import py_lib, STFILE
+from .c04 import py_lib, STFILE, _bounded as c04_bounded
+from contracts.interp_sim import sim_unit
 
 BOUNDED = {}
 TIER = ['quick']
@@ -36,6 +37,9 @@ def units_for(repo, cs, pid):
         us.append(Unit(f'{pid}/py/Interpreter.pattern[through MemoizingInterpreter]/{c}', _wrapped_arm(repo, cs, c), info={'split_depth': 1}))
     for m in ('publish_axiom', 'publish_claim', 'publish_proof', 'into_claim_phase', 'into_proof_phase'):
         us.append(Unit(f'{pid}/py/MemoizingInterpreter.{m}', forward_unit(repo, cs, m)))
+    # the machine-level meaning of publishing and of the memory the optimiser relies on (Save / Load / Publish): the C04 simulation units of these calls, re-run here
+    for m, ph in (('publish_axiom', 'Gamma'), ('publish_claim', 'Claim'), ('publish_proof', 'Proof'), ('save', 'Proof'), ('load', 'Proof'), ('save', 'Gamma'), ('load', 'Gamma')):
+        us.append(Unit(f'{pid}/py/SerializingInterpreter.{m}/{ph}', sim_unit(repo, cs, m, ph), info={'split_depth': 1}))
     us.append(Unit(f'{pid}/py/SerializingInterpreter.symbol[any table]', symbol_table_unit(repo, cs)))
     us.append(Unit(f'{pid}/py/SerializingInterpreter.symbol[256 or more symbols]', symbol_refusal_unit(repo, cs)))
     for m in ('into_claim_phase', 'into_proof_phase'):
